@@ -11,8 +11,9 @@ import (
 
 func NewRangeWriter(w io.Writer) *RangeWriter {
 	return &RangeWriter{
-		w:       w,
-		builder: &strings.Builder{},
+		w:        w,
+		builder:  &strings.Builder{},
+		skeleton: &strings.Builder{},
 	}
 }
 
@@ -25,6 +26,15 @@ type RangeWriter struct {
 	index    int
 	builder  *strings.Builder
 	Literals []string
+
+	// skeleton is the generated code without the contents of the string literals.
+	skeleton *strings.Builder
+}
+
+// Skeleton returns the code written so far, leaving out the contents of the string literals.
+// Two files with the same skeleton compile to programs that differ only in their literals.
+func (rw *RangeWriter) Skeleton() string {
+	return rw.skeleton.String()
 }
 
 func (rw *RangeWriter) closeLiteral(indent int) (r parser.Range, err error) {
@@ -36,14 +46,16 @@ func (rw *RangeWriter) closeLiteral(indent int) (r parser.Range, err error) {
 	sb.WriteString(`templ_7745c5c3_Err = templruntime.WriteString(templ_7745c5c3_Buffer, `)
 	sb.WriteString(strconv.Itoa(rw.index))
 	sb.WriteString(`, "`)
+	if _, err := rw.write(sb.String()); err != nil {
+		return r, err
+	}
 	literal := rw.builder.String()
 	rw.Literals = append(rw.Literals, literal)
-	sb.WriteString(literal)
 	rw.builder.Reset()
-	sb.WriteString(`")`)
-	sb.WriteString("\n")
-
-	if _, err := rw.write(sb.String()); err != nil {
+	if _, err := rw.writeUnrecorded(literal); err != nil {
+		return r, err
+	}
+	if _, err := rw.write(`")` + "\n"); err != nil {
 		return r, err
 	}
 
@@ -80,6 +92,12 @@ func (rw *RangeWriter) Write(s string) (r parser.Range, err error) {
 }
 
 func (rw *RangeWriter) write(s string) (r parser.Range, err error) {
+	rw.skeleton.WriteString(s)
+	return rw.writeUnrecorded(s)
+}
+
+// writeUnrecorded writes s without adding it to the skeleton.
+func (rw *RangeWriter) writeUnrecorded(s string) (r parser.Range, err error) {
 	r.From = parser.Position{
 		Index: rw.Current.Index,
 		Line:  rw.Current.Line,
